@@ -119,6 +119,17 @@ def specChi (s : Sys) (w : Array Float) (ops : Array Mat) (x4 : Mat) (zs : Array
             (acc.1 + t, acc.2.1 || amb, acc.2.2 + t.abs)) acc) acc) acc) acc) (czero, false, 0.0)
   |> fun r => let _ := sx; r
 
+/-- `absWeightChi` of Spec/TruncBounds.lean: Σ over the six orderings and all world lines of the product of the
+absolute values of the four matrix elements (the factor of the proven truncation bound for χ⁴) -/
+def absWeightChi (s : Sys) (ops : Array Mat) (x4 : Mat) : Float :=
+  perms3.foldl (fun (acc : Float) (p, _) =>
+    let A := sparseRows ops[p[0]!]!; let B := sparseRows ops[p[1]!]!; let Cc := sparseRows ops[p[2]!]!
+    (List.range s.dim).foldl (fun acc n1 =>
+      (A[n1]!).foldl (fun acc (n2, a) =>
+        (B[n2]!).foldl (fun acc (n3, b) =>
+          (Cc[n3]!).foldl (fun (acc : Float) (n4, c) =>
+            acc + a.abs * b.abs * c.abs * (mget x4 n4 n1).abs) acc) acc) acc) acc) 0.0
+
 /-- What the full-space bosonic Lehmann sum says about one value of χ_AB, split by how the library is documented to
 treat each term: `x` the value of the definition; `filtered` the part carried by terms the library certainly drops
 (pole outside the 1e-8 resonance window, |residue| below the 1e-8 residue tolerance); `unsure` the absolute size of what
